@@ -1,0 +1,92 @@
+//go:build verif
+
+/*
+SPDX-License-Identifier: Apache-2.0
+*/
+
+package introduce
+
+import (
+	"github.com/hyperledger/aries-framework-go/pkg/didcomm/common/service"
+)
+
+// VerifTarget is one row of the message type -> state map (nextState).
+type VerifTarget struct {
+	Msg      string
+	V3       bool
+	Outbound bool
+	State    string
+	Err      bool
+}
+
+// VerifTables is the protocol's state machine as the code defines it, obtained by executing it.
+type VerifTables struct {
+	States  []string
+	Can     [][2]string
+	Targets []VerifTarget
+	Actions []VerifTarget
+}
+
+// VerifMsgTypes maps a short message name to the message type.
+func VerifMsgTypes() map[string]string {
+	return map[string]string{
+		"proposal":       ProposalMsgType,
+		"request":        RequestMsgType,
+		"response":       ResponseMsgType,
+		"ack":            AckMsgType,
+		"problem-report": ProblemReportMsgType,
+	}
+}
+
+// VerifGraph enumerates the state machine by calling the package's own functions.
+func VerifGraph() *VerifTables {
+	names := []string{
+		stateNameStart, stateNameAbandoning, stateNameDone,
+		stateNameArranging, stateNameDelivering, stateNameConfirming,
+		stateNameRequesting, stateNameDeciding, stateNameWaiting,
+	}
+	t := &VerifTables{States: names}
+	all := append([]string{}, names...)
+	all = append(all, stateNameNoop)
+
+	for _, a := range all {
+		for _, b := range all {
+			if stateFromName(a).CanTransitionTo(stateFromName(b)) {
+				t.Can = append(t.Can, [2]string{a, b})
+			}
+		}
+	}
+
+	types := VerifMsgTypes()
+
+	for _, m := range []string{"proposal", "request", "response", "ack", "problem-report"} {
+		msg := service.DIDCommMsgMap{"@id": "verif-id", "@type": types[m]}
+
+		for _, out := range []bool{false, true} {
+			st, err := nextState(msg, out)
+			row := VerifTarget{Msg: m, Outbound: out, Err: err != nil}
+
+			if err == nil {
+				row.State = st.Name()
+			}
+
+			t.Targets = append(t.Targets, row)
+		}
+
+		if canTriggerActionEvents(msg) {
+			t.Actions = append(t.Actions, VerifTarget{Msg: m})
+		}
+	}
+
+	return t
+}
+
+// VerifBarrier returns once the listener has finished every callback handed to it before
+// (the callbacks channel is unbuffered: the listener only receives when it is idle).
+func (s *Service) VerifBarrier() {
+	md := &metaData{state: &noOp{}, saveMetadata: s.saveMetadata}
+	md.PIID = "verif-barrier"
+	md.Msg = service.DIDCommMsgMap{"@id": "verif-id", "@type": AckMsgType}
+	md.msgClone = md.Msg
+	s.callbacks <- md
+}
